@@ -32,7 +32,7 @@ _BWNOTE = ("Assumes lock-section + environment-event granularity is enough (all 
 chk("C01", "model_checking",
     "explicit-state BFS over the real broker under a controlled scheduler (hook gates), reference-model conformance after every step",
     _BW + "C01: <=3 (thorough 4) attempts over IDs {k, kk, K, empty, /io}, every order of admissions, stream endings, releases, cancellations and shutdown; "
-    "oracles: refused attempts end at once, never see I/O, are announced; only the attached pair sees a probe line / chunk; IDs equal.",
+    "oracles: refused attempts end at once, never see I/O, are announced; only the attached pair sees a probe line / chunk; IDs equal. HTTP seam: every ordered pair of streams over /i/{id}, /o/{id} (6 ID spellings incl. percent-encoded and case variants) and /io through the real handlers over TLS with probe line and chunk.",
     _BWNOTE, "DESIGN.md 4, 5 C01")
 chk("C04", "model_checking",
     "explicit-state BFS over the real broker under a controlled scheduler, goroutine census at quiescence",
@@ -50,14 +50,14 @@ chk("C02", "model_checking",
     "explicit-state BFS over the real broker under a controlled scheduler with write/flush fault injection at every point; exhaustive payload enumeration",
     _BW + "C02: <=3 (thorough 4) operator lines entered before, between and during <=2-3 successive shells on all four writer kinds (plain, Flusher, FlushError, both), "
     "a write or flush failure at every point, clients vanishing (including 'while the line is in the proxy's hands'), input closing; oracle on the writers' call logs: "
-    "each entry = line + one newline, flushed before the next, gap-free duplicate-free run across shells, nothing lost except a line whose own transmission failed.",
+    "each entry = line + one newline, flushed before the next, gap-free duplicate-free run across shells, nothing lost except a line whose own transmission failed. Lines also enter through the real opshell.ChanWriter (sizes 2^k+-1 to 1 MiB) and through Ctrl+I on the real Shell (pty worker): exactly one entry, reported size and hash correct.",
     _BWNOTE + " The HTTP/1.1-over-TLS writer is represented by the FlushError kind (what net/http hands the handler); the TLS seam itself is not part of this check.",
     "DESIGN.md 4, 5 C02")
 chk("C03", "model_checking",
     "explicit-state BFS over the real broker: every sequence of read results x every terminal speed (unbuffered, one-slot, roomy operator channel)",
     _BW + "C03: every sequence of <=3 (thorough 4-5) read results over {data, zero-length, data+EOF/unexpected EOF/error, bare EOF/closed pipe/error, sizes 1/2047/2048/2049/5000}, "
     "operator channel of capacity 0, 1 and 1024 consumed at every relative speed, cancellation at every point (also simultaneously with a read returning); oracle: what is shown is "
-    "always a prefix of what was sent, complete and in front of the close notice when the stream ended by itself.",
+    "always a prefix of what was sent, complete and in front of the close notice when the stream ended by itself. Terminal seam: every sequence of <=4 (thorough 6) items over {chunk, chunk without newline, multi-line chunk, close-style notice, status line} through the real opshell.Shell on a pty, stepwise / burst / backlog before start: terminal = CR-LF translation, in order.",
     _BWNOTE, "DESIGN.md 4, 5 C03")
 chk("C11", "model_checking",
     "explicit-state BFS over the real broker with a capturing slog handler and a real slog JSON handler; exhaustive payload enumeration",
@@ -169,6 +169,7 @@ chk("C19", "model_checking",
     "stateless exhaustive DFS over all event strings of length L on the real opshell.Shell under a virtual clock (import-rewritten time), three-valued reference model",
     "lib/opshell/opshell.go is built with its time import rewritten (overlay) to a virtual clock. The real Shell is constructed by the real New in worker processes whose controlling terminal is a fresh pty, Do running, terminal output captured; "
     "every event string of length 6 (thorough 8) over {Ctrl+O, plain chunk, status line, +0.1 s, +1.9 s, +2.1 s} is executed (46 656 / 1 679 616 executions), timers firing at their own deadlines with quiescence after each; "
-    "oracle after every step: a chunk is shown iff the model is un-muted, every status line is shown, exactly one Muting / Already muted / Unmuting announcement where due, nothing suppressed without Ctrl+O, private flag equals the model where the model is sure.",
+    "oracle after every step: a chunk is shown iff the model is un-muted, every status line is shown, exactly one Muting / Already muted / Unmuting announcement where due, nothing suppressed without Ctrl+O, private flag equals the model where the model is sure. "
+    "Second exploration (sync import rewritten to a parking mutex): for Ctrl+O typed on stdin together with shell output / a status line / Ctrl+I, muted or not, every order of the write-lock steps of the goroutines involved is executed (stateless DFS); oracle: the terminal still displays a status line afterwards and no goroutine is stuck on a mutex (found the Ctrl+O deadlock, fixed in 16389e4).",
     "Ctrl+O is delivered through the callback the Shell registered (goxterm's key decoding trusted). Three-valued model: between the two readings of a repeated Ctrl+O and exactly on a 2.0 s boundary either state is accepted. Real-time behaviour of the binary is not part of the deciding run.",
     "DESIGN.md 5 C19")
